@@ -944,3 +944,104 @@ Section HistoryFacts.
       destruct (run_event sem _ s0 c r s Hin) as [-> ->]. split; reflexivity.
   Qed.
 End HistoryFacts.
+
+(* ========================================================================================== *)
+(* 7. radialLess is a strict total order on Z^2 (the zero vector included); fixVertex *)
+Local Open Scope Z_scope.
+Definition rlt (x1 y1 x2 y2 : Z) : Prop :=
+  (x1 >= 0 /\ x2 < 0) \/
+  (~ (x1 < 0 /\ x2 >= 0) /\ ~ (x1 >= 0 /\ x2 < 0) /\
+   ((x1 = 0 /\ x2 = 0 /\ ((y1 >= 0 \/ y2 >= 0) /\ y1 < y2 \/ (y1 < 0 /\ y2 < 0 /\ y2 < y1))) \/
+    (~ (x1 = 0 /\ x2 = 0) /\
+      (x1 * y2 - y1 * x2 > 0 \/ (x1 * y2 - y1 * x2 = 0 /\ x1 * x1 + y1 * y1 < x2 * x2 + y2 * y2))))).
+
+Lemma radial_ltb_rlt x1 y1 x2 y2 : radial_ltb (x1, y1) (x2, y2) = true <-> rlt x1 y1 x2 y2.
+Proof.
+  unfold radial_ltb, rlt.
+  destruct (Z.geb_spec x1 0), (Z.ltb_spec x2 0), (Z.ltb_spec x1 0), (Z.geb_spec x2 0); simpl; try lia;
+  destruct (Z.eqb_spec x1 0), (Z.eqb_spec x2 0); simpl; try lia;
+  try (destruct (Z.geb_spec y1 0), (Z.geb_spec y2 0); simpl; rewrite ?Z.ltb_lt; lia);
+  destruct (Z.eqb_spec (x1 * y2 - y1 * x2) 0); simpl; rewrite ?Z.gtb_ltb, ?Z.ltb_lt; lia.
+Qed.
+
+Lemma rlt_trans x1 y1 x2 y2 x3 y3 : rlt x1 y1 x2 y2 -> rlt x2 y2 x3 y3 -> rlt x1 y1 x3 y3.
+Proof.
+  unfold rlt.
+  (* a det(b,c) + b det(c,a) + c det(a,b) = 0, componentwise *)
+  assert (I1 : (x1*y3 - y1*x3)*x2 = (x1*y2 - y1*x2)*x3 + (x2*y3 - y2*x3)*x1) by ring.
+  assert (I2 : (x1*y3 - y1*x3)*y2 = (x1*y2 - y1*x2)*y3 + (x2*y3 - y2*x3)*y1) by ring.
+  remember (x1*y2 - y1*x2) as d12. remember (x2*y3 - y2*x3) as d23. remember (x1*y3 - y1*x3) as d13.
+  remember (x1*x1+y1*y1) as l1. remember (x2*x2+y2*y2) as l2. remember (x3*x3+y3*y3) as l3.
+  intros H12 H23.
+  destruct (Z.lt_trichotomy x1 0) as [?|[?|?]];
+  destruct (Z.lt_trichotomy x2 0) as [?|[?|?]];
+  destruct (Z.lt_trichotomy x3 0) as [?|[?|?]]; try lia.
+  all: nia.
+Qed.
+
+Lemma rlt_irrefl x y : ~ rlt x y x y.
+Proof. unfold rlt. nia. Qed.
+
+Lemma parallel_same_length x1 y1 x2 y2 :
+  x1*y2 - y1*x2 = 0 -> x1*x1+y1*y1 = x2*x2+y2*y2 -> x1 * x2 > 0 -> x1 = x2 /\ y1 = y2.
+Proof.
+  intros D L S.
+  assert (I : (x1*x1+y1*y1) * (x2*x2) = x1*x1*(x2*x2+y2*y2) + (x1*y2 - y1*x2) * (- (x1*y2) - y1*x2)) by ring.
+  rewrite D, Z.mul_0_l, Z.add_0_r, <- L in I.
+  assert (E : (x1*x1+y1*y1) * (x2*x2 - x1*x1) = 0) by lia.
+  apply Z.mul_eq_0 in E. destruct E as [E|E]; [nia|].
+  assert (F : (x2 - x1) * (x2 + x1) = 0) by lia.
+  apply Z.mul_eq_0 in F. destruct F as [F|F]; [|nia].
+  assert (x1 = x2) by lia. subst x2. split; [reflexivity|].
+  assert (G : x1 * (y2 - y1) = 0) by lia. apply Z.mul_eq_0 in G. destruct G; [nia|lia].
+Qed.
+
+Lemma rlt_total x1 y1 x2 y2 : ~ rlt x1 y1 x2 y2 -> ~ rlt x2 y2 x1 y1 -> x1 = x2 /\ y1 = y2.
+Proof.
+  unfold rlt. intros H1 H2.
+  assert (N : x2*y1 - y2*x1 = - (x1*y2 - y1*x2)) by ring.
+  pose proof (parallel_same_length x1 y1 x2 y2) as P.
+  remember (x1*y2 - y1*x2) as d. remember (x2*y1 - y2*x1) as d'.
+  remember (x1*x1+y1*y1) as l1. remember (x2*x2+y2*y2) as l2.
+  destruct (Z.lt_trichotomy x1 0) as [?|[?|?]];
+  destruct (Z.lt_trichotomy x2 0) as [?|[?|?]]; try lia.
+  all: try (apply P; [lia|lia|nia]).
+  all: assert (d = 0) by lia; assert (l1 = l2) by lia; subst d d' l1 l2; subst; exfalso.
+  all: rewrite ?Z.mul_0_l, ?Z.mul_0_r, ?Z.sub_0_r, ?Z.add_0_l, ?Z.add_0_r, ?Z.sub_0_l in *.
+  all: nia.
+Qed.
+Local Close Scope Z_scope.
+
+Lemma radial_ltb_irrefl a : radial_ltb a a = false.
+Proof.
+  destruct a as [x y]. destruct (radial_ltb (x, y) (x, y)) eqn:E; [|reflexivity].
+  apply radial_ltb_rlt in E. exfalso. exact (rlt_irrefl x y E).
+Qed.
+Lemma radial_ltb_trans a b c : radial_ltb a b = true -> radial_ltb b c = true -> radial_ltb a c = true.
+Proof.
+  destruct a as [x1 y1], b as [x2 y2], c as [x3 y3]. rewrite !radial_ltb_rlt. apply rlt_trans.
+Qed.
+Lemma radial_ltb_total a b : radial_ltb a b = false -> radial_ltb b a = false -> a = b.
+Proof.
+  destruct a as [x1 y1], b as [x2 y2]. intros H1 H2.
+  destruct (rlt_total x1 y1 x2 y2) as [-> ->]; [| |reflexivity].
+  - intros H. apply radial_ltb_rlt in H. congruence.
+  - intros H. apply radial_ltb_rlt in H. congruence.
+Qed.
+
+(* fixVertex: the (edge, successor) pairs do not depend on the order v.incidents was ranged in,
+   when the incident edges have pairwise different directions *)
+Lemma fix_vertex_order_free_lemma (inc inc' : list (nat * (Z * Z))) :
+  (forall x y, In x inc -> In y inc -> snd x = snd y -> x = y) ->
+  Permutation inc inc' -> Permutation (fix_vertex inc) (fix_vertex inc').
+Proof.
+  intros Hinj P. unfold fix_vertex. rewrite <- (Permutation_length P).
+  destruct (length inc <=? 2) eqn:El.
+  - apply Nat.leb_le in El.
+    destruct inc as [|a [|b [|c t]]]; simpl in El; try lia.
+    + apply Permutation_nil in P. subst. reflexivity.
+    + apply Permutation_length_1_inv in P. subst. reflexivity.
+    + apply Permutation_length_2_inv in P. destruct P as [->| ->]; [reflexivity|]. simpl. apply perm_swap.
+  - rewrite (isort_by_perm_invariant_lemma _ _ radial_ltb snd radial_ltb_irrefl radial_ltb_trans radial_ltb_total
+               inc inc' Hinj P). reflexivity.
+Qed.
